@@ -198,6 +198,41 @@ pub fn run(r: &mut Runner) {
         states.fetch_add(n, std::sync::atomic::Ordering::Relaxed);
     });
     r.states += states.into_inner();
+    // ---- every exponent of one operand (2098 positions, subnormals included); the other operand placed
+    //      relative to it so that sums cancel / products and quotients land in and around the claimed ranges
+    let mut fr_s = run_bounded(52, 2);
+    fr_s.extend(gen_fracs(2));
+    let fr_t: Vec<u64> = vec![0, 1, (1u64 << 52) - 1, 1u64 << 51, gen_fracs(1)[0], weyl_fracs(1, 33)[0]];
+    let all_e: Vec<i32> = (-1075..=1023).collect();
+    r.notes.push(format!("all-exponent sweep: a over all exponents -1074..1023 x {} fractions x 2 signs; b = {} fractions at exponents {{-e_a-959, -e_a-900, -e_a-1, -e_a, -e_a+1, -e_a+1000, 0, e_a-1, e_a, e_a+1, e_a-53}}", fr_s.len(), fr_t.len()));
+    r.par("all-exponent sweep", all_e.len(), (all_e.len() * fr_s.len() * 2 * fr_t.len() * 11) as u64, |c, l| {
+        let e = all_e[c];
+        let mut i = 0u64;
+        for &f in &fr_s {
+            for s in [false, true] {
+                let a = if e >= -1022 { mk_f64(s, e, f).unwrap() } else if e == -1023 { mk_subnormal(s, f.max(1)) } else if e == -1074 { mk_subnormal(s, 1) } else { mk_subnormal(s, (f >> 20).max(1)) };
+                let ea = crate::grid::exp_of(a);
+                for t in [-ea - 959, -ea - 900, -ea - 1, -ea, -ea + 1, -ea + 1000, 0, ea - 1, ea, ea + 1, ea - 53] {
+                    if !(-1022..=1023).contains(&t) {
+                        continue;
+                    }
+                    for &g in &fr_t {
+                        for sb in [false, true] {
+                            let b = mk_f64(sb, t, g).unwrap();
+                            for op in 0..4u8 {
+                                let v = judge(op, a, b, Some(l));
+                                rec.record(l, (1u64 << 50) + ((c as u64) << 26) + i, v);
+                                i += 1;
+                                let v = judge(op, b, a, Some(l));
+                                rec.record(l, (1u64 << 50) + ((c as u64) << 26) + i, v);
+                                i += 1;
+                            }
+                        }
+                    }
+                }
+            }
+        }
+    });
     r.add_sample(json!({"call": "new_add", "a": hexf(mk_f64(false, 0, fr_a[3]).unwrap()), "b": hexf(mk_f64(true, -7, fr_b[5]).unwrap())}));
     r.add_sample(json!({"call": "new_mul", "a": hexf(mk_subnormal(false, fr_a[9])), "b": hexf(mk_f64(true, 1000, fr_b[5]).unwrap())}));
 }
